@@ -23,6 +23,7 @@ type vLvl struct {
 	intOpt   bool // declares IntOpt -n
 	ownHelp  bool // declares its own option named "h help"
 	longDesc string
+	noDesc   bool // declared with an empty short description
 	kids     []*vLvl
 	id       int
 }
@@ -69,13 +70,13 @@ func vTree(t int) (root *vLvl, version bool) {
 			{names: "abc b", spec: "[-f] X", action: true},
 		}}
 	case 3:
-		root = &vLvl{names: "app", spec: "[-f] [X]", action: true, longDesc: "LONG-ROOT", kids: []*vLvl{
+		root = &vLvl{names: "app", spec: "[-f] [X]", action: true, longDesc: "LONG-ROOT", noDesc: true, kids: []*vLvl{
 			{names: "c", spec: "", action: true}}}
 	case 4:
 		root = &vLvl{names: "app", spec: "", action: false, kids: []*vLvl{
 			{names: "c", spec: "[-f]", action: true, kids: []*vLvl{
 				{names: "d dd", spec: "[X]", action: false, kids: []*vLvl{
-					{names: "g", spec: "[-f] [X]", action: true, longDesc: "LONG-G"}}}}}}}
+					{names: "g", spec: "[-f] [X]", action: true, longDesc: "LONG-G", noDesc: true}}}}}}}
 	case 5:
 		root = &vLvl{names: "app", spec: "[-f] [X]", action: true, kids: []*vLvl{
 			{names: "c cc", spec: "[X]", action: true}}}
@@ -85,6 +86,20 @@ func vTree(t int) (root *vLvl, version bool) {
 		root = &vLvl{names: "app", spec: "[-f]", action: true, kids: []*vLvl{
 			{names: "ls -l --list", spec: "[X]", action: true},
 			{names: "rm", spec: "[-f] X", action: true}}}
+	case 9:
+		// a command name may contain a comma: names are separated by blanks only
+		root = &vLvl{names: "app", spec: "[-f]", action: true, kids: []*vLvl{
+			{names: "a,b c", spec: "[X]", action: true}}}
+	case 10:
+		// specs made of blanks only: the level takes no token of its own
+		root = &vLvl{names: "app", spec: " ", action: true, kids: []*vLvl{
+			{names: "c", spec: "\t ", action: true, kids: []*vLvl{
+				{names: "d", spec: "[X]", action: true}}}}}
+	case 8:
+		// a sub-command declares an option spelled like the help flag, its parent does not
+		root = &vLvl{names: "app", spec: "[-f]", action: true, kids: []*vLvl{
+			{names: "c", spec: "[-h] [X]", action: true, ownHelp: true, kids: []*vLvl{
+				{names: "d", spec: "[X]", action: true}}}}}
 	case 6:
 		// a command may declare an option spelled like the help flag: help still wins
 		root = &vLvl{names: "app", spec: "[-h] [X]", action: true, ownHelp: true, kids: []*vLvl{
@@ -121,6 +136,8 @@ type vTreeRun struct {
 	panicked bool
 	panicV   interface{}
 	out      string
+	anyF     bool // SetByUser shared by every level's -f
+	anyFAct  bool // its value when the Action ran
 }
 
 // vSubPolicy: when set, every sub-command gets this error policy in its initializer
@@ -146,7 +163,8 @@ func vDeclare(cmd *Cmd, l *vLvl, run *vTreeRun) {
 	if vTreeEnv {
 		fenv = "TF"
 	}
-	f := cmd.Bool(BoolOpt{Name: "f ff", EnvVar: fenv})
+	// one SetByUser variable shared by the -f of every level: true iff some level's -f was written
+	f := cmd.Bool(BoolOpt{Name: "f ff", EnvVar: fenv, SetByUser: &run.anyF})
 	if l.ownHelp {
 		cmd.Bool(BoolOpt{Name: "h help"})
 	}
@@ -161,6 +179,7 @@ func vDeclare(cmd *Cmd, l *vLvl, run *vTreeRun) {
 	if l.action {
 		cmd.Action = func() {
 			run.log = append(run.log, 200+id)
+			run.anyFAct = run.anyF
 		}
 	}
 	// values are read at the moment any hook of a deeper or equal level runs: record
@@ -179,7 +198,11 @@ func vDeclare(cmd *Cmd, l *vLvl, run *vTreeRun) {
 	cmd.Before = func() { read(); oldB() }
 	for _, k := range l.kids {
 		kk := k
-		cmd.Command(kk.names, "desc-"+vFirstName(kk.names), func(c *Cmd) {
+		desc := "desc-" + vFirstName(kk.names)
+		if kk.noDesc {
+			desc = ""
+		}
+		cmd.Command(kk.names, desc, func(c *Cmd) {
 			if vSubPolicySet {
 				c.ErrorHandling = vSubPolicy
 			}
@@ -198,7 +221,11 @@ func vRunTree(root *vLvl, version bool, policy flag.ErrorHandling, argv []string
 		run.exitCode = code
 		panic(vExitPanic{code})
 	}
-	app := App("app", "desc-app")
+	rootDesc := "desc-app"
+	if root != nil && root.noDesc {
+		rootDesc = ""
+	}
+	app := App("app", rootDesc)
 	app.ErrorHandling = policy
 	if version && onlyLevel == nil {
 		app.Version("v version", "VERSION-1.2.3")
@@ -265,9 +292,11 @@ func vRefTree(l *vLvl, path string, args []string, root, version bool, exp *vExp
 	// first help token before the first `--` of the remaining arguments
 	h := -1
 	ddBefore := false
+	ddAt := -1
 	for i, a := range args {
 		if a == "--" {
 			ddBefore = true
+			ddAt = i
 			break
 		}
 		if vIsHelpTok(a) {
@@ -292,9 +321,10 @@ func vRefTree(l *vLvl, path string, args []string, root, version bool, exp *vExp
 		vRefTree(kid, path+" "+vFirstName(kid.names), args[n+1:], false, false, exp)
 		return
 	}
-	if ddBefore {
+	if ddBefore && ddAt < n {
 		// a `--` in this level's own arguments hides help tokens further right from this
-		// level's scan: unclaimed when such a token belongs to a deeper level
+		// level's scan: unclaimed when such a token belongs to a deeper level (a `--` that
+		// belongs to a deeper level itself is that level's business)
 		for i := n + 1; i < len(args); i++ {
 			if vIsHelpTok(args[i]) {
 				exp.unclaimed = true
@@ -304,7 +334,13 @@ func vRefTree(l *vLvl, path string, args []string, root, version bool, exp *vExp
 	exp.levels = append(exp.levels, l)
 	exp.tokens = append(exp.tokens, args[:n])
 	single := vRunTree(nil, false, flag.ContinueOnError, args[:n], l)
-	if single.err != nil || single.panicked {
+	levelRejects := single.err != nil || single.panicked
+	if l.spec != "" && vTrim(l.spec) == "" {
+		// a spec made of blanks is a spec (it is not "absent", C16): it accepts no token,
+		// except the `--` that is bound to nothing (C09)
+		levelRejects = !(n == 0 || (n == 1 && args[0] == "--"))
+	}
+	if levelRejects {
 		exp.kind, exp.path, exp.cmd = rkReject, path, l
 		return
 	}
@@ -437,8 +473,13 @@ func H_route() {
 		vAssert(run.err == nil, "C04: addressed command is valid but Run returned an error")
 		vAssert(vEqInts(run.log, vExpectedLog(exp.levels)), "C04: not exactly the addressed Action (with its interceptors) ran")
 		// every level's variables hold what the single-level application binds
+		wantAnyF := false
 		for i, l := range exp.levels {
 			single := vRunTree(nil, false, flag.ContinueOnError, exp.tokens[i], l)
+			wantAnyF = wantAnyF || single.anyF
+			defer func() {
+				vAssert(run.anyFAct == wantAnyF && run.anyF == wantAnyF, "C15: a SetByUser variable shared by the levels' -f options is not true exactly when some level's command line wrote -f")
+			}()
 			want, got := single.recs[l.id], run.recs[l.id]
 			vAssert(got.seen && want.seen, "C04: a level on the path was not initialised")
 			vAssert(got.f == want.f && got.n == want.n && vEqStrs(got.x, want.x), "C04: a level's variables differ from its own single-level parse")
@@ -595,5 +636,91 @@ func H_help() {
 	vAssert(strings.HasPrefix(run.out, vUsageLine(exp.cmd, exp.path)), "C14: help does not start with the usage of the addressed command")
 	if exp.cmd.longDesc != "" {
 		vAssert(strings.Contains(run.out, "\n\n"+exp.cmd.longDesc+"\n"), "C14: long description not shown")
+	}
+}
+
+// ---------------------------------------------------------------------------------
+// C09 on command trees: inserting `--` into the trailing block of positional tokens of
+// one level's own arguments changes nothing - not the routing to the sub-commands that
+// follow, not the bindings, not the verdict.
+
+func init() {
+	vRegister("H_dd_tree", H_dd_tree)
+}
+
+func H_dd_tree() {
+	vTreeEnvSetup()
+	root, version := vTree(vParamInt("tree"))
+	argv := vTreeArgv()
+	vNoHelp(argv)
+	for _, a := range argv {
+		vAssume(a != "--")
+	}
+	if version {
+		vAssume(len(argv) == 0 || (argv[0] != "-v" && argv[0] != "--version"))
+	}
+	exp := &vExpect{}
+	vRefTree(root, "app", argv, true, version, exp)
+	vAssume(len(exp.levels) > 0)
+	// the level whose own tokens get the `--`, and where they start in argv
+	li := vChoice("level", len(exp.levels))
+	lvl := exp.levels[li]
+	vAssume(!lvl.intOpt) // every token of the level that does not start with a dash is a positional
+	off := 0
+	for i := 0; i < li; i++ {
+		off += len(exp.tokens[i]) + 1 // the level's tokens and the name of the next command
+	}
+	own := exp.tokens[li]
+	// trailing block of non-dash tokens
+	start := len(own)
+	for start > 0 && !(len(own[start-1]) > 0 && own[start-1][0] == '-') {
+		start--
+	}
+	p := start + vChoice("at", len(own)-start+1)
+	var with []string
+	with = append(with, argv[:off+p]...)
+	with = append(with, "--")
+	with = append(with, argv[off+p:]...)
+	base := vRunTree(root, version, flag.ContinueOnError, argv, nil)
+	ins := vRunTree(root, version, flag.ContinueOnError, with, nil)
+	vObserve("log", base.log)
+	vObserve("err", base.err != nil)
+	vAssert(!base.panicked && !ins.panicked, "Run panicked")
+	vAssert((base.err == nil) == (ins.err == nil), "C09: inserting `--` in a level's trailing positional block changed the verdict")
+	vAssert(vEqInts(base.log, ins.log), "C09: inserting `--` in a level's trailing positional block changed what runs")
+	if base.err == nil {
+		vCover("accepted")
+		for _, l := range exp.levels {
+			b, i := base.recs[l.id], ins.recs[l.id]
+			vAssert(b.seen == i.seen && b.f == i.f && b.n == i.n && vEqStrs(b.x, i.x), "C09: inserting `--` in a level's trailing positional block changed a binding")
+		}
+	} else {
+		vCover("rejected")
+	}
+}
+
+// ---------------------------------------------------------------------------------
+// C03 on command trees: whatever the tokens (help tokens, `--`, command names, raw
+// bytes) and the policy, Run never dies with a runtime error.
+
+func init() {
+	vRegister("H_tree_total", H_tree_total)
+}
+
+func H_tree_total() {
+	vTreeEnvSetup()
+	root, version := vTree(vParamInt("tree"))
+	argv := vHelpArgv(root, vParamInt("K"), vParamInt("L"))
+	pol := vChoice("policy", 3)
+	policy := []flag.ErrorHandling{flag.ContinueOnError, flag.ExitOnError, flag.PanicOnError}[pol]
+	run := vRunTree(root, version, policy, argv, nil)
+	vObserve("panicked", run.panicked)
+	vObserve("exited", run.exited)
+	if run.panicked {
+		vCover("panicked")
+		vAssert(!vIsRuntimeError(run.panicV), "C03: Run died with a runtime error")
+		vAssert(policy == flag.PanicOnError, "C03: Run panicked although the policy is not PanicOnError")
+	} else {
+		vCover("returned-or-exited")
 	}
 }
